@@ -145,3 +145,14 @@ class TTuple(TRef):
 
     def describe(self):
         return "Tuple(%s)" % ", ".join(e.describe() for e in self.elems)
+
+
+class TMap(TRef):
+    """heap dict with symbolic keys: $mhas[id][key] : Bool, $mval[id][key] : Val (values of shape `val`)"""
+
+    def __init__(self, val=None, key=None):
+        self.val = val
+        self.key = key
+
+    def describe(self):
+        return "Map(%s)" % (self.val.describe() if self.val else "Any")
